@@ -1,7 +1,7 @@
 """C16 - label predicates and encoder round trip (structural clauses)."""
 import ast
 
-from ..astutil import FuncTree, dominates
+from ..astutil import FuncTree, dominates, inline_temporaries
 from ..common import norm_stmt
 from ..deps import names_in, base_name, index_names
 from ..index import AnalysisError
@@ -82,41 +82,45 @@ def run(p, report, tier):
     li = p.get_func(MOD, "labeled_indices")
     ui = p.get_func(MOD, "unlabeled_indices")
     params = ["y", "missing_label"]
+    # structural rules look at the functions with single-use temporaries substituted back
+    iln = inline_temporaries(il.node)
+    iun = inline_temporaries(iu.node)
     # ---- R16.1
-    rets = [n for n in ast.walk(il.node) if isinstance(n, ast.Return)]
+    rets = [n for n in ast.walk(iln) if isinstance(n, ast.Return)]
     ok = False
     if len(rets) == 1 and rets[0].value is not None:
         inner = _is_invert(rets[0].value)
         ok = isinstance(inner, ast.Call) and c01.callname(inner) == "is_unlabeled" and _forwarded(inner, params)
-    report.add("R16.1", "is_labeled", "returns ~is_unlabeled(y, missing_label)", f"{il.file}:{il.node.lineno}", ok,
+    report.add("R16.1", "is_labeled", "returns ~is_unlabeled(y, missing_label)", f"{il.file}:{iln.lineno}", ok,
                detail="complement by construction" if ok else "is_labeled is not the plain inversion of is_unlabeled "
                "with both arguments forwarded")
     for f, pred in ((li, "is_labeled"), (ui, "is_unlabeled")):
-        calls = [n for n in ast.walk(f.node) if isinstance(n, ast.Call) and c01.callname(n) == pred]
+        fn_ = inline_temporaries(f.node)
+        calls = [n for n in ast.walk(fn_) if isinstance(n, ast.Call) and c01.callname(n) == pred]
         okc = len(calls) >= 1 and all(_forwarded(c, params) for c in calls)
         # argwhere over the predicate's result, returned
         pvars = set()
-        for n in ast.walk(f.node):
+        for n in ast.walk(fn_):
             if isinstance(n, ast.Assign) and isinstance(n.value, ast.Call) and c01.callname(n.value) == pred:
                 pvars |= {t.id for t in n.targets if isinstance(t, ast.Name)}
-        aw = [n for n in ast.walk(f.node) if isinstance(n, ast.Call) and c01.callname(n) in ("argwhere", "flatnonzero", "nonzero", "where")
+        aw = [n for n in ast.walk(fn_) if isinstance(n, ast.Call) and c01.callname(n) in ("argwhere", "flatnonzero", "nonzero", "where")
               and n.args and ((isinstance(n.args[0], ast.Name) and n.args[0].id in pvars) or
                               (isinstance(n.args[0], ast.Call) and c01.callname(n.args[0]) == pred))]
         avars = set()
-        for n in ast.walk(f.node):
+        for n in ast.walk(fn_):
             if isinstance(n, ast.Assign) and any(x in aw for x in ast.walk(n.value)):
                 avars |= {t.id for t in n.targets if isinstance(t, ast.Name)}
         retok = all(n.value is not None and (names_in(n.value) & avars or any(x in aw for x in ast.walk(n.value)))
-                    for n in ast.walk(f.node) if isinstance(n, ast.Return))
-        other = [n for n in ast.walk(f.node) if isinstance(n, ast.Call) and c01.callname(n) in ("is_labeled", "is_unlabeled")
+                    for n in ast.walk(fn_) if isinstance(n, ast.Return))
+        other = [n for n in ast.walk(fn_) if isinstance(n, ast.Call) and c01.callname(n) in ("is_labeled", "is_unlabeled")
                  and c01.callname(n) != pred]
         good = okc and bool(aw) and retok and not other
         report.add("R16.1", f.qual, f"np.argwhere({pred}(y, missing_label))", f"{f.file}:{f.node.lineno}", good,
                    detail="index enumeration of the predicate with both arguments forwarded" if good else
                    f"forwarded={okc} argwhere={bool(aw)} returned={retok} other_predicate={bool(other)}")
     # ---- R16.2
-    tree = FuncTree(iu.node)
-    rets = [n for n in ast.walk(iu.node) if isinstance(n, ast.Return)]
+    tree = FuncTree(iun)
+    rets = [n for n in ast.walk(iun) if isinstance(n, ast.Return)]
     kinds = {}
     for r in rets:
         v = r.value
@@ -133,7 +137,7 @@ def run(p, report, tier):
                     kind = "empty"
         kinds.setdefault(kind, []).append(r)
     shape_ok = len(kinds.get("nan", [])) == 1 and len(kinds.get("eq", [])) == 1 and not kinds.get("other")
-    report.add("R16.2", "is_unlabeled", "exactly one isnan path and one equality path", f"{iu.file}:{iu.node.lineno}",
+    report.add("R16.2", "is_unlabeled", "exactly one isnan path and one equality path", f"{iu.file}:{iun.lineno}",
                shape_ok, detail=str({k: len(v) for k, v in kinds.items()}))
     if shape_ok:
         rn, re_ = kinds["nan"][0], kinds["eq"][0]
@@ -155,12 +159,12 @@ def run(p, report, tier):
         cast = ".astype(" in ast.unparse(re_.value)
         report.add("R16.2", "is_unlabeled", "NaN vs. equality dispatch", f"{iu.file}:{rn.lineno}", gok and eq_else and cast,
                    detail=f"nan-guard={gok} equality-in-complement={eq_else} cast-before-compare={cast}")
-        checks = [n for n in ast.walk(iu.node) if isinstance(n, ast.Call) and c01.callname(n) == "check_missing_label"]
+        checks = [n for n in ast.walk(iun) if isinstance(n, ast.Call) and c01.callname(n) == "check_missing_label"]
         dom = len(checks) >= 2 and all(dominates(tree, tree.stmt_of(c), rn) and dominates(tree, tree.stmt_of(c), re_)
                                        for c in checks)
         typed = any(any(k.arg == "target_type" for k in c.keywords) for c in checks)
         report.add("R16.2", "is_unlabeled", "check_missing_label (plain and typed) dominates both result paths",
-                   f"{iu.file}:{iu.node.lineno}", dom and typed, detail=f"{len(checks)} calls, typed={typed}")
+                   f"{iu.file}:{iun.lineno}", dom and typed, detail=f"{len(checks)} calls, typed={typed}")
     # ---- R16.3
     enc = p.get_class("ExtLabelEncoder")
     spec = {
